@@ -9,8 +9,8 @@ EXTENDS IndependenceCat, IndependenceHist, Json
 \* a case outside the domain of the pipeline model: residue name without a block (the call fails before anything is written)
 CaseFail == Case(29, 6, 1, <<"A", "C">>, NoFi(2), Chain(2), <<>>)
 HCase(id) == IF id = 29 THEN CaseFail ELSE CHOOSE c \in AllCases : c.id = id
-HIn3 == <<HCase(26), HCase(27), HCase(20)>>
-HIn4 == <<HCase(26), HCase(27), HCase(20), CaseFail>>
+HIn3 == <<HCase(26), HCase(27), HCase(21)>>
+HIn4 == <<HCase(26), HCase(27), HCase(21), CaseFail>>
 CONSTANT HInputs
 
 P0 == [ff |-> <<>>, fs |-> [i \in 1..Len(HInputs) |-> <<>>], queue |-> <<>>]
